@@ -30,6 +30,15 @@ var keyValueJSON = map[string]string{
 	"trigger": `"deploy-pipeline"`, "group": `"Tests"`,
 }
 
+// further well-typed values per kind-determining key, null and empty ones among them
+var keyValueVariants = map[string][]string{
+	// (no list-valued `command`: next to `commands` it is a type error for the string field it falls
+	// into, and the documented fallback to an unknown step applies - see DESIGN 2.5)
+	"command": {`null`, `""`}, "commands": {`null`, `[]`, `"x"`, `""`}, "plugins": {`null`, `[]`, `{}`, `["docker#v1.0.0"]`},
+	"wait": {`""`, `"x"`, `null`}, "waiter": {`""`, `null`}, "block": {`null`, `""`}, "input": {`null`, `""`}, "manual": {`null`, `""`},
+	"trigger": {`null`, `""`}, "group": {`null`, `""`},
+}
+
 var typeValues = []string{"<absent>", "command", "script", "wait", "waiter", "block", "input", "manual", "trigger", "group", "", "foo", "Command", "wait ", "steps"}
 
 type row struct {
@@ -239,7 +248,7 @@ func TestExhaustiveRuleTable(t *testing.T) {
 	recTable.Exhaustive()
 }
 
-var recExtra = ev.New("TestPropExtraKeysDoNotChangeKind", "random rows of the same table with 0-10 extra keys (names outside every kind-determining key, arbitrary nested values incl. anchors/aliases) in random key order and style: decision unchanged; non-trivial = >= 3 extra keys and keys from >= 2 families or a contradicting type; distinct by document text")
+var recExtra = ev.New("TestPropExtraKeysDoNotChangeKind", "random rows of the same table with 0-10 extra keys (names outside every kind-determining key, arbitrary nested values incl. anchors/aliases) in random key order and style, one kind-determining key in three carrying a null or empty value instead of the usual one: decision unchanged (the rule looks at the presence of keys); non-trivial = >= 3 extra keys and keys from >= 2 families or a contradicting type; distinct by document text")
 
 func TestPropExtraKeysDoNotChangeKind(t *testing.T) {
 	ev.Check(t, 3000, 200000, func(t *rapid.T) {
@@ -254,7 +263,13 @@ func TestPropExtraKeysDoNotChangeKind(t *testing.T) {
 			if mask&(1<<i) != 0 {
 				has[k] = true
 				var v yaml.Node
-				if err := yaml.Unmarshal([]byte(keyValueJSON[k]), &v); err != nil {
+				valText := keyValueJSON[k]
+				if rapid.IntRange(0, 2).Draw(t, "variant") == 0 {
+					// the rule is about the PRESENCE of a key: null and empty values count like any other
+					valText = rapid.SampledFrom(keyValueVariants[k]).Draw(t, "valvariant")
+					recExtra.Class("kind-key-with-null-or-empty-value")
+				}
+				if err := yaml.Unmarshal([]byte(valText), &v); err != nil {
 					t.Fatal(err)
 				}
 				val := v.Content[0]
